@@ -13,7 +13,7 @@ cd "$(dirname "$(readlink -f "$0")")/../.."
 for P in "$@"; do
   WHATSHAP_REPO="$S" WHVERIF_OUTROOT=/var/tmp/mut/out harness/check.py "$P" --tier "${TIER:-quick}" > /var/tmp/mut/out-$$-$P.txt 2>&1
   rc=$?
-  echo "== $P rc=$rc"; grep -E "VIOLATION|KNOWN-FINDING|^\[" /var/tmp/mut/out-$$-$P.txt | head -5
+  echo "== $P rc=$rc"; grep -E "^VIOLATION|^KNOWN-FINDING|^\[C[0-9]" /var/tmp/mut/out-$$-$P.txt | head -8
   rm -f /var/tmp/mut/out-$$-$P.txt
 done
 rm -rf "$S"
